@@ -111,4 +111,146 @@ theorem usplitSet_length_le (t : T) (hu : t.tipNames.Nodup) : t.usplitSet.length
     rw [heq] at this
     omega
 
+theorem filter_and_lt {α : Type} (p q : α → Bool) : ∀ (l : List α) (x : α), x ∈ l → p x = true → q x = false →
+    (l.filter (fun a => p a && q a)).length + 1 ≤ (l.filter p).length := by
+  intro l
+  induction l with
+  | nil => intro x hx; simp at hx
+  | cons y l ih =>
+    intro x hx hp hq
+    have hle : (l.filter (fun a => p a && q a)).length ≤ (l.filter p).length := by
+      have : l.filter (fun a => p a && q a) = (l.filter p).filter q := by rw [List.filter_filter]; congr 1; funext a; exact Bool.and_comm _ _
+      rw [this]
+      exact List.filter_sublist.length_le
+    rcases List.mem_cons.mp hx with rfl | hx
+    · simp only [List.filter_cons, hp, hq, Bool.and_false, Bool.false_eq_true, if_false, if_true, List.length_cons]
+      omega
+    · have := ih x hx hp hq
+      simp only [List.filter_cons]
+      cases hpy : p y <;> cases hqy : q y <;> simp <;> omega
+
+/-- sharper: only the non-trivial ones among the branches whose lower end is not a tip count -/
+theorem usplitSet_length_le' (t : T) (hu : t.tipNames.Nodup) :
+    t.usplitSet.length ≤ (t.splits.filter fun s => !s.tip &&
+      decide (2 ≤ lightSize t.tipNames (canonSide t.tipNames s.below))).length := by
+  rw [← List.length_map (f := fun s : SplitE => canonSide t.tipNames s.below)]
+  apply List.Nodup.length_le_of_subset (usplitSet_nodup t)
+  intro a ha
+  obtain ⟨⟨s, hs, heq⟩, hl⟩ := (mem_usplitSet t a).mp ha
+  simp only [List.mem_map, List.mem_filter, Bool.and_eq_true, Bool.not_eq_eq_eq_not, Bool.not_true, decide_eq_true_eq]
+  refine ⟨s, ⟨hs, ?_, by rw [heq]; exact hl⟩, heq⟩
+  cases htip : s.tip with
+  | false => rfl
+  | true =>
+    exfalso
+    obtain ⟨x, hx⟩ := tip_entry_singleton t.kids s (by simpa [T.splits] using hs) htip
+    rw [hx] at heq
+    have := lightSize_singleton hu x
+    rw [heq] at this
+    omega
+
+/-- rooted tree with exactly one tip at the root: the branch to the other child of the root is
+    not a tip branch, but its split is trivial -/
+theorem usplitSet_length_lt_rooted_tip (t : T) (hu : t.tipNames.Nodup) (hr : t.rooted = true)
+    (h1 : (t.kids.filter (fun et => !et.2.isLeaf)).length = 1) :
+    t.usplitSet.length + 1 ≤ t.internalEdges.length := by
+  have hle := usplitSet_length_le' t hu
+  have hint : t.internalEdges.length = (t.splits.filter fun s => !s.tip).length := by simp [T.internalEdges]
+  rw [hint]
+  suffices ∃ s ∈ t.splits, (!s.tip) = true ∧
+      decide (2 ≤ lightSize t.tipNames (canonSide t.tipNames s.below)) = false by
+    obtain ⟨s, hs, hp, hq⟩ := this
+    have := filter_and_lt (fun s : SplitE => !s.tip)
+      (fun s : SplitE => decide (2 ≤ lightSize t.tipNames (canonSide t.tipNames s.below))) t.splits s hs hp hq
+    omega
+  obtain ⟨d, p, k⟩ := t
+  simp only [T.rooted, T.kids_node, beq_iff_eq] at hr h1
+  clear hle hint
+  match k, hr, hu, h1 with
+  | [(e1, a), (e2, b)], _, hu, h1 =>
+    have hall : (T.node d p [(e1, a), (e2, b)]).tipNames = a.leaves ++ b.leaves := by
+      simp [T.tipNames, leavesL]
+    rw [hall] at hu ⊢
+    simp only [List.filter_cons, List.filter_nil] at h1
+    cases ha : a.isLeaf <;> cases hb : b.isLeaf <;> simp [ha, hb] at h1
+    · -- `b` is the tip: the branch to `a`
+      obtain ⟨db, pb, kb⟩ := b
+      have hkb : kb = [] := by simpa [T.isLeaf] using hb
+      subst hkb
+      refine ⟨⟨a.leaves, e1, a.isLeaf⟩, by simp [T.splits, splitsL], by simp [ha], ?_⟩
+      have hc : canonSide (a.leaves ++ (T.node db pb []).leaves) a.leaves =
+          canonSide (a.leaves ++ (T.node db pb []).leaves) (T.node db pb []).leaves :=
+        canonSide_compl hu (List.Perm.refl _)
+      simp only [decide_eq_false_iff_not, Nat.not_le]
+      rw [hc]
+      have := lightSize_singleton hu db.name
+      simp only [T.leaves] at this ⊢
+      omega
+    · -- `a` is the tip: the branch to `b`
+      obtain ⟨da, pa, ka⟩ := a
+      have hka : ka = [] := by simpa [T.isLeaf] using ha
+      subst hka
+      refine ⟨⟨b.leaves, e2, b.isLeaf⟩, by simp [T.splits, splitsL], by simp [hb], ?_⟩
+      have hc : canonSide ((T.node da pa []).leaves ++ b.leaves) (T.node da pa []).leaves =
+          canonSide ((T.node da pa []).leaves ++ b.leaves) b.leaves :=
+        canonSide_compl hu (List.Perm.refl _)
+      simp only [decide_eq_false_iff_not, Nat.not_le]
+      rw [← hc]
+      have := lightSize_singleton hu da.name
+      simp only [T.leaves] at this ⊢
+      omega
+
+/-- rooted tree whose root has two inner children: the two branches at the root define the
+    same split -/
+theorem usplitSet_length_lt_rooted_inner (t : T) (hu : t.tipNames.Nodup) (hr : t.rooted = true)
+    (h2 : (t.kids.filter (fun et => !et.2.isLeaf)).length = 2) :
+    t.usplitSet.length + 1 ≤ t.internalEdges.length := by
+  obtain ⟨d, p, k⟩ := t
+  simp only [T.rooted, T.kids_node, beq_iff_eq] at hr h2
+  match k, hr, hu, h2 with
+  | [(e1, a), (e2, b)], _, hu, h2 =>
+    have hall : (T.node d p [(e1, a), (e2, b)]).tipNames = a.leaves ++ b.leaves := by
+      simp [T.tipNames, leavesL]
+    simp only [List.filter_cons, List.filter_nil] at h2
+    have ha : a.isLeaf = false := by
+      cases ha : a.isLeaf <;> cases hb : b.isLeaf <;> simp [ha, hb] at h2 ⊢
+    have hb : b.isLeaf = false := by
+      cases ha : a.isLeaf <;> cases hb : b.isLeaf <;> simp [ha, hb] at h2 ⊢
+    have hc : canonSide (a.leaves ++ b.leaves) a.leaves = canonSide (a.leaves ++ b.leaves) b.leaves :=
+      canonSide_compl (hall ▸ hu) (List.Perm.refl _)
+    -- the inner entries, and the same list without the branch to `b`
+    have hsplits : (T.node d p [(e1, a), (e2, b)]).splits =
+        ⟨a.leaves, e1, a.isLeaf⟩ :: (a.splitsBelow ++ (⟨b.leaves, e2, b.isLeaf⟩ :: b.splitsBelow)) := by
+      simp [T.splits, splitsL]
+    have hint : (T.node d p [(e1, a), (e2, b)]).internalEdges.length =
+        ((⟨a.leaves, e1, a.isLeaf⟩ :: (a.splitsBelow.filter (fun s => !s.tip) ++ b.splitsBelow.filter (fun s => !s.tip)) : List SplitE).map
+          fun s => canonSide (a.leaves ++ b.leaves) s.below).length + 1 := by
+      simp [T.internalEdges, hsplits, List.filter_append, ha, hb]
+      omega
+    rw [hint]
+    apply Nat.succ_le_succ
+    apply List.Nodup.length_le_of_subset (usplitSet_nodup _)
+    intro x hx
+    obtain ⟨⟨s, hs, heq⟩, hl⟩ := (mem_usplitSet _ x).mp hx
+    rw [hall] at heq hl
+    have htip : s.tip = false := by
+      cases htip : s.tip with
+      | false => rfl
+      | true =>
+        exfalso
+        obtain ⟨y, hy⟩ := tip_entry_singleton _ s (by simpa [T.splits] using hs) htip
+        rw [hy] at heq
+        have := lightSize_singleton (hall ▸ hu) y
+        rw [heq] at this
+        omega
+    rw [hsplits] at hs
+    simp only [List.mem_cons, List.mem_append] at hs
+    simp only [List.map_cons, List.map_append, List.mem_cons, List.mem_append, List.mem_map, List.mem_filter,
+      Bool.not_eq_eq_eq_not, Bool.not_true]
+    rcases hs with rfl | hs | rfl | hs
+    · exact Or.inl heq.symm
+    · exact Or.inr (Or.inl ⟨s, ⟨hs, htip⟩, heq⟩)
+    · exact Or.inl (by rw [← heq]; exact hc.symm ▸ rfl)
+    · exact Or.inr (Or.inr ⟨s, ⟨hs, htip⟩, heq⟩)
+
 end Gotree.C17
